@@ -88,3 +88,92 @@ func replayKindsProgram(n *Native, job *Job, v *Violation) (ReplayResult, bool) 
 	v.Witness["native-program"] = conc
 	return res, true
 }
+
+func dropShift(out string, at, delta int) string {
+	if out == "" {
+		return ""
+	}
+	var sb strings.Builder
+	for _, l := range strings.Split(strings.TrimSuffix(out, "\n"), "\n") {
+		parts := strings.SplitN(l, ":::", 3)
+		if len(parts) < 3 {
+			sb.WriteString(l + "\n")
+			continue
+		}
+		row := 0
+		fmt.Sscanf(parts[1], "%d", &row)
+		switch {
+		case row >= at && row < at+delta:
+			continue
+		case row >= at+delta:
+			row -= delta
+		}
+		fmt.Fprintf(&sb, "%s:::%d:::%s\n", parts[0], row, parts[2])
+	}
+	return sb.String()
+}
+
+// replayPair re-judges a metamorphic counterexample (program A vs. program B = A with lines
+// inserted) on the native binary.
+func replayPair(n *Native, job *Job, v *Violation) (ReplayResult, bool) {
+	srcA, ok := v.Witness["srcA"]
+	srcB, ok2 := v.Witness["srcB"]
+	if v.Kind != "assert" || !ok || !ok2 {
+		return replayKindsProgram(n, job, v)
+	}
+	var at, delta int
+	fmt.Sscanf(v.Witness[v.ID+".at"], "%d", &at)
+	fmt.Sscanf(v.Witness[v.ID+".delta"], "%d", &delta)
+	ca, okA := concretizeSym(srcA, v.Witness)
+	cb, okB := concretizeSym(srcB, v.Witness)
+	if !okA || !okB {
+		return ReplayResult{Observed: "cannot make the skeleton concrete"}, true
+	}
+	cfg := ""
+	if job.Config != "" {
+		cfg = configRoot(job.Config) + "/.ti-config"
+	}
+	args := []string{"./a.rb"}
+	if fl := v.Witness["flags"]; fl != "" {
+		args = append(args, strings.Fields(fl)...)
+	}
+	outA, _, _ := n.RunTi(map[string]string{"a.rb": ca}, args, cfg)
+	outB, _, _ := n.RunTi(map[string]string{"a.rb": cb}, args, cfg)
+	norm := dropShift(outB, at, delta)
+	v.Witness["native-program-A"] = ca
+	v.Witness["native-program-B"] = cb
+	res := ReplayResult{Cmd: "ti " + strings.Join(args, " ") + " on program A and on program B (B = A with " + fmt.Sprint(delta) + " line(s) inserted before row " + fmt.Sprint(at) + ")",
+		Observed: fmt.Sprintf("A reports %q; B (rows shifted back) reports %q", outA, norm)}
+	res.Reproduced = norm != outA && !(strings.TrimSpace(norm) == strings.TrimSpace(outA))
+	return res, true
+}
+
+// replayKindsProgramAlts is replayKindsProgram for expectations that list several
+// acceptable renderings (comma-separated in the witness).
+func replayKindsProgramAlts(n *Native, job *Job, v *Violation) (ReplayResult, bool) {
+	rr, handled := replayKindsProgram(n, job, v)
+	if !handled || v.Kind != "assert" {
+		return rr, handled
+	}
+	want := v.Witness[v.ID+".expect"]
+	row := v.Witness[v.ID+".row"]
+	if strings.Contains(rr.Observed, "native reports") {
+		// recompute against the list of alternatives
+		conc := v.Witness["native-program"]
+		cfg := ""
+		if job.Config != "" {
+			cfg = configRoot(job.Config) + "/.ti-config"
+		}
+		out, _, _ := n.RunTi(map[string]string{"a.rb": conc}, []string{"./a.rb"}, cfg)
+		got := lineFor(out, row)
+		ok := false
+		for _, a := range strings.Split(want, ",") {
+			if got == a {
+				ok = true
+			}
+		}
+		rr.Reproduced = !ok
+		rr.Observed = fmt.Sprintf("row %s: native reports %q, the reference model allows %q", row, got, want)
+	}
+	return rr, true
+}
